@@ -412,6 +412,24 @@ func TestC02(t *testing.T) {
 			}, "rotation-boundary", at)
 		}
 	}
+	// a failure exactly at the key rotation: one bit flipped in the header / body of the records around
+	// record 499 (its body is the 1000th decrypt, the one that triggers the rotation); the reader is
+	// asked again afterwards and must stay failed
+	for _, unit := range []int{996, 997, 998, 999, 1000, 1001} {
+		for _, off := range []int{0, 5} {
+			unit, off := unit, off
+			c02Case(r, unit%2 == 0, rot, func(s *c02Session, h []seg) []seg {
+				orig := s.units[0][unit][off]
+				w := cloneSegs(h[:unit])
+				if off > 0 {
+					w = append(w, seg{own: true, use: unit, from: 0, to: off})
+				}
+				w = append(w, seg{junk: []byte{orig ^ 0x10}})
+				w = append(w, seg{own: true, use: unit, from: off + 1, to: len(s.units[0][unit])})
+				return append(w, h[unit+1:]...)
+			}, "rotation-boundary-flip", unit*10+off)
+		}
+	}
 	// the resynchronisation attempt that the sticky error must defeat
 	c02Case(r, false, []int{2, 3}, func(s *c02Session, h []seg) []seg {
 		return []seg{{junk: randBytes(rng, 18)}, {junk: randBytes(rng, 18)}, h[2], h[3]}
